@@ -92,6 +92,30 @@ static void fixed_c02(Ctx &ctx)
   // every (cmode, hmode) x T 1..16 with a single chunk and with T+1 chunks, canonical schedule
   const Prop *p = find_prop("C02");
   uint64_t i = 0;
+  // seeds found by search: the first IV (SHA-1 of the seed) ends in ..56ff / ..2cfff7 / ..baffffec / 97ffffff11,
+  // so the CTR counter of a stream carries through 1 / 2 / 3 / 4 bytes within the first 256 blocks
+  for (const char *sd : {"wv-seed-33", "wv-seed-897", "wv-seed-153636", "wv-ctr-86421"})
+    for (int T : {1, 2})
+      for (int cm : {2, 1, 4})
+      {
+        if (!mine(ctx, i++))
+          continue;
+        Case c;
+        int chunk = 256;
+        c.seti("plen", T * 4096 - 7);
+        c.set("pseed", std::to_string(i * 31 + 5));
+        c.seti("pstyle", 0);
+        c.setb("key", expand(i + 1234, 16, 0));
+        c.setb("seed", bytes(sd, sd + strlen(sd)));
+        c.seti("cmode", cm);
+        c.seti("hmode", (int)(i % 3));
+        c.seti("T", T);
+        c.seti("chunk", chunk);
+        c.set("sched", "k0");
+        c.set("sched2", "k0");
+        c.seti("single_matrix", 1);
+        eval_fixed(*p, ctx, c);
+      }
   for (int cm = 0; cm < 5; cm++)
     for (int hm = 0; hm < 3; hm++)
       for (int T = 1; T <= 16; T++)
